@@ -60,7 +60,7 @@ FIXED_KINDS = ["fe_it", "fe_idx", "fe_both", "fe_sorted", "fe_guard", "sum", "un
 
 
 def family_fixed(tier, seed, n=None):
-    out = witness_sum_reassign()
+    out = witness_sum_reassign() + witness_empty_list()
     per = 2 if tier == "quick" else 24
     for kind in FIXED_KINDS:
         for t in range(per):
@@ -69,6 +69,9 @@ def family_fixed(tier, seed, n=None):
             size = rnd.choice([0, 1, 2, 3, 3])
             if kind in ("index",):
                 size = 3
+            if kind in ("sum", "member") and size == 0:
+                # quarantine of known finding C02-field-free-statement-dropped (witnesses L/fixed/witness/empty_*)
+                size = 1
             fields = [fld("a", 2, False), fld("k", 2, False, rand=False, init=rnd.randrange(4)),
                       list_field("l", 2, rnd.random() < 0.2 and kind not in ("sum",), init=[0] * size, cap=5),
                       list_field("nl", 2, False, rand=False, init=[1, 2], cap=5)]
@@ -112,8 +115,19 @@ def family_fixed(tier, seed, n=None):
     return out
 
 
-def _placeholder():
-    pass
+def witness_empty_list():
+    """known finding C02-field-free-statement-dropped: over an EMPTY list `l.sum >= 2` and `a in l` reduce to constant
+    false statements that mention no field; they are dropped and the unsatisfiable call returns normally"""
+    out = []
+    for nm, body in (("empty_sum", [E(B("ge", {"k": "sum", "l": "l"}, lit(2)))]),
+                     ("empty_member", [E({"k": "in", "e": F("a"), "items": [{"k": "l", "p": "l"}], "neg": False})])):
+        fields = [fld("a", 2, False), fld("k", 2, False, rand=False, init=0), list_field("l", 2, False, init=[], cap=5),
+                  list_field("nl", 2, False, rand=False, init=[1, 2], cap=5)]
+        world = {"classes": {"A": {"base": "", "fields": fields, "blocks": [{"name": "c1", "dynamic": False, "body": body}]}},
+                 "population": [{"id": "o1", "cls": "A"}]}
+        out.append({"id": "L/fixed/witness/" + nm, "world": world,
+                    "ops": [{"op": "construct", "o": "o1"}, {"op": "call", "call": mcall()}], "tags": []})
+    return out
 
 
 def witness_sum_reassign():
